@@ -22,6 +22,8 @@ type Op struct {
 	NT     int      `json:"nodetype,omitempty"` // node type for regnode
 	// CloseFail makes the registered node object's Close fail.
 	CloseFail bool `json:"closefail,omitempty"`
+	// CtxDone: the call is made with an already cancelled context (RemoveNode, RemovePipelineAndNodes).
+	CtxDone bool `json:"ctxdone,omitempty"`
 }
 
 func (o Op) String() string {
@@ -33,8 +35,14 @@ func (o Op) String() string {
 	case "rmpipe":
 		return fmt.Sprintf("RemovePipeline(%s/%s)", o.Type, o.Pid)
 	case "rmpipenodes":
+		if o.CtxDone {
+			return fmt.Sprintf("RemovePipelineAndNodes(cancelled ctx,%s/%s)", o.Type, o.Pid)
+		}
 		return fmt.Sprintf("RemovePipelineAndNodes(%s/%s)", o.Type, o.Pid)
 	case "rmnode":
+		if o.CtxDone {
+			return fmt.Sprintf("RemoveNode(cancelled ctx,%s)", o.ID)
+		}
 		return fmt.Sprintf("RemoveNode(%s)", o.ID)
 	}
 	return o.Kind
@@ -81,6 +89,11 @@ func (w *World) newNode(id string, nt int, style NodeStyle) *RecNode {
 func (w *World) Apply(op Op, style NodeStyle) Outcome {
 	out := Outcome{Op: op}
 	ctx := context.Background()
+	if op.CtxDone {
+		c, cancel := context.WithCancel(ctx)
+		cancel()
+		ctx = c
+	}
 	switch op.Kind {
 	case "regnode":
 		n := w.newNode(op.ID, op.NT, style)
@@ -225,9 +238,9 @@ func (a Alphabet) GenOp(r *rt.Rand) Op {
 	case x < 72:
 		return Op{Kind: "rmpipe", Type: rt.Pick(r, a.Types), Pid: rt.Pick(r, a.Pids)}
 	case x < 86:
-		return Op{Kind: "rmpipenodes", Type: rt.Pick(r, a.Types), Pid: rt.Pick(r, a.Pids)}
+		return Op{Kind: "rmpipenodes", Type: rt.Pick(r, a.Types), Pid: rt.Pick(r, a.Pids), CtxDone: r.Intn(6) == 0}
 	default:
-		return Op{Kind: "rmnode", ID: rt.Pick(r, a.allIDs())}
+		return Op{Kind: "rmnode", ID: rt.Pick(r, a.allIDs()), CtxDone: r.Intn(6) == 0}
 	}
 }
 
